@@ -296,6 +296,32 @@ def toFacets {α} (faceTable : Nat → Option (List (List Nat))) (m : FEM α) : 
   | some t3, some t4 => .ok ⟨m.nodes, surfaceElems (removeDuplicates t3) (removeDuplicates t4), m.nodal, []⟩
   | _, _ => .error .other
 
+/-- `to_surface(remove_unnecessary_nodes=False)`: the same surface elements (ids -> storage positions -> ids, with the
+    same exceptions), every node and every nodal variable is kept as it is -/
+def toSurfaceKeep {α} (faceTable : Nat → Option (List (List Nat))) (m : FEM α) : Except Err (FEM α) :=
+  match facetsOfWidth faceTable m.elems 3, facetsOfWidth faceTable m.elems 4 with
+  | some t3, some t4 =>
+    let tris := onceOnly t3
+    let quads := onceOnly t4
+    if tris.isEmpty && quads.isEmpty then .error .value else
+    match gather (gather (idPos m.nodes.ids)) tris, gather (gather (idPos m.nodes.ids)) quads with
+    | some pt, some pq =>
+      match gather (gatherPos m.nodes.ids) pt, gather (gatherPos m.nodes.ids) pq with
+      | some st, some sq => .ok ⟨m.nodes, surfaceElems st sq, m.nodal, []⟩
+      | _, _ => .error .index
+    | _, _ => .error .key
+  | _, _ => .error .other
+
+/-- `to_facets(remove_duplicates=False)`: every face of every element, shared faces once per element -/
+def toFacetsAll {α} (faceTable : Nat → Option (List (List Nat))) (m : FEM α) : Except Err (FEM α) :=
+  match facetsOfWidth faceTable m.elems 3, facetsOfWidth faceTable m.elems 4 with
+  | some t3, some t4 => .ok ⟨m.nodes, surfaceElems t3 t4, m.nodal, []⟩
+  | _, _ => .error .other
+
+/-- the one-integer facet key `Σ id_k · base^(m-1-k)` (Horner form).  NOT what femio uses (`np.unique(axis=0)` compares
+    the rows, = `faceKey`): it identifies rows only while every id is below `base` (`Props/C09.lean`) -/
+def radixKey (base : Nat) (row : List Nat) : Nat := row.foldl (fun k d => k * base + d) 0
+
 /-! ### id-keyed observation (what the property and the correspondence look at) -/
 
 def FEM.elemAt {α} (m : FEM α) (i : Id) : Option (Ent (List Id)) := m.elems.flatten.find? (·.id == i)
